@@ -34,6 +34,7 @@ const Row kRows[] = {
   {OP_COEFFS, {"coeffs", C_ELEM, A_NONE, 0, true, false, false}},
   {OP_DATAPTR, {"data()", C_ELEM, A_NONE, 0, true, false, false}},
   {OP_ACCESSORS, {"accessors", C_ELEM, A_NONE, 0, true, false, false}},
+  {OP_CONSTRUCT, {"construct", C_ELEM, A_NONE, 0, true, false, false}},
 
   {OP_EXP, {"exp", C_TAN, A_NONE, 1, true, false, false}},
   {OP_RETRACT, {"retract", C_TAN, A_NONE, 1, true, false, false}},
